@@ -769,3 +769,135 @@ Proof.
   - intros x ->. auto.
   - intros ->. auto.
 Qed.
+
+(** ** ARC with at least two slots: a resident entry never vanishes during a [put] — the victim of [replace]
+    becomes the most recent ghost, and a ghost list that is trimmed in the same call loses an older ghost *)
+Lemma drop_last_cons_keeps (x y : entry) l : drop_last (x :: y :: l) = x :: drop_last (y :: l).
+Proof.
+  unfold drop_last. rewrite (split_last_cons x (y :: l)).
+  destruct (split_last_cons_nonempty y l) as (r & e & E). now rewrite E.
+Qed.
+
+Lemma in_head_drop_last (x : entry) l : l <> [] -> In x (drop_last (x :: l)).
+Proof. destruct l as [|y t]; [congruence|]. intros _. rewrite drop_last_cons_keeps. now left. Qed.
+
+Lemma length_drop_last l : length (drop_last l) = (length l - 1)%nat.
+Proof.
+  unfold drop_last. destruct (split_last l) as [[r e]|] eqn:E.
+  - apply split_last_app in E. subst. rewrite app_length. cbn. lia.
+  - apply split_last_none in E. now subst.
+Qed.
+
+Lemma push_bounded_head c g x : exists t, fst (push_bounded c g x) = x :: t /\
+  (t = g \/ (t = drop_last g /\ (c <= length g)%nat)).
+Proof.
+  unfold push_bounded. destruct (Nat.ltb_spec (length g) c); cbn [fst]; eexists; split; eauto.
+Qed.
+
+(** where a resident entry is after [replace]: still resident, or the head of one ghost list (the other ghost
+    list untouched) *)
+Definition ghosted (e : entry) (g0 g1 : list entry) (c : nat) : Prop :=
+  exists t, g1 = e :: t /\ (t = g0 \/ (t = drop_last g0 /\ (c <= length g0)%nat)).
+
+Lemma made_room_residents s0 full b s1 :
+  arc_inv s0 -> (full = true -> (1 <= llen (t1 s0) + llen (t2 s0))%nat) -> made_room s0 full b s1 ->
+  forall e, In e (items (t1 s0) ++ items (t2 s0)) ->
+    (In e (items (t1 s1) ++ items (t2 s1)) /\ items (b1 s1) = items (b1 s0) /\ items (b2 s1) = items (b2 s0)) \/
+    (In e (items (t1 s1) ++ items (t2 s1)) /\ (exists x, ghosted x (items (b1 s0)) (items (b1 s1)) (asize s0)) /\ items (b2 s1) = items (b2 s0)) \/
+    (In e (items (t1 s1) ++ items (t2 s1)) /\ (exists x, ghosted x (items (b2 s0)) (items (b2 s1)) (asize s0)) /\ items (b1 s1) = items (b1 s0)) \/
+    (ghosted e (items (b1 s0)) (items (b1 s1)) (asize s0) /\ items (b2 s1) = items (b2 s0)) \/
+    (ghosted e (items (b2 s0)) (items (b2 s1)) (asize s0) /\ items (b1 s1) = items (b1 s0)).
+Proof.
+  intros Hinv Hne Hm e He. unfold made_room in Hm. destruct full; [|inversion Hm; subst; left; auto].
+  destruct (replace_exact s0 b Hinv (Hne eq_refl))
+    as (fromr & victim & s' & Hv & E & _ & _ & _ & _ & _ & _ & E1 & E2 & E3 & E4).
+  rewrite E in Hm. inversion Hm; subst s'. clear Hm.
+  pose proof (q_victim_last _ _ _ _ _ Hv) as Hlast.
+  rewrite E1, E2, E3, E4. apply in_app_iff in He.
+  destruct fromr.
+  - destruct (push_bounded_head (asize s0) (items (b1 s0)) victim) as (t & Et & Ht).
+    destruct He as [He|He].
+    + rewrite Hlast in He. apply in_app_iff in He. destruct He as [He|[<-|[]]].
+      * right. left. split; [apply in_or_app; now left|]. split; [|reflexivity]. exists victim, t. auto.
+      * right. right. right. left. split; [|reflexivity]. exists t. auto.
+    + right. left. split; [apply in_or_app; now right|]. split; [|reflexivity]. exists victim, t. auto.
+  - destruct (push_bounded_head (asize s0) (items (b2 s0)) victim) as (t & Et & Ht).
+    destruct He as [He|He].
+    + right. right. left. split; [apply in_or_app; now left|]. split; [|reflexivity]. exists victim, t. auto.
+    + rewrite Hlast in He. apply in_app_iff in He. destruct He as [He|[<-|[]]].
+      * right. right. left. split; [apply in_or_app; now right|]. split; [|reflexivity]. exists victim, t. auto.
+      * right. right. right. right. split; [|reflexivity]. exists t. auto.
+Qed.
+
+(** a ghost list that received a victim and is then trimmed keeps the victim, when the cache has two slots or more:
+    the list was non-empty before (that is why it is trimmed), so the victim is not its oldest entry *)
+Lemma ghosted_survives_trim e g0 g1 c :
+  ghosted e g0 g1 c -> (2 <= c)%nat -> (1 <= length g0)%nat -> In e (drop_last g1).
+Proof.
+  intros (t & -> & [->|[-> Hc]]) H2 H1; apply in_head_drop_last.
+  - destruct g0; [cbn in H1; lia|discriminate].
+  - intros E. apply (f_equal (@length entry)) in E. rewrite length_drop_last in E. cbn in E. lia.
+Qed.
+
+Lemma ghosted_in e g0 g1 c : ghosted e g0 g1 c -> In e g1.
+Proof. intros (t & -> & _). now left. Qed.
+
+Theorem arc_residents_kept s k v s' r :
+  arc_inv s -> (2 <= asize s)%nat -> aput s k v = Ok (s', r) ->
+  forall e, In e (items (t1 s) ++ items (t2 s)) -> fst e <> k -> In e (retained_a s').
+Proof.
+  intros Hinv H2 Ex e He Hne. pose proof Hinv as (Hs & Hc1 & Hc2 & Hc3 & Hc4 & Hp & Hr & Hg1 & Hg2 & Hd).
+  assert (Hkeep : forall l, In e l -> In e (remove_key k l)).
+  { induction l as [|[a b] l IH]; cbn; [tauto|]. intros [<-|Hin].
+    - cbn [fst] in Hne. destruct (Z.eqb_spec k a); [congruence|now left].
+    - destruct (Z.eqb_spec k a); [exact Hin|right; now apply IH]. }
+  destruct (find k (items (t1 s))) as [old|] eqn:E1.
+  - rewrite (aput_recent_hit s k v old Hinv E1) in Ex. inversion Ex; subst s' r.
+    unfold retained_a. cbn [t1 t2 b1 b2 items with_items]. apply in_app_iff in He. in_norm.
+    destruct He as [He|He]; [left; now apply Hkeep|tauto].
+  - destruct (find k (items (t2 s))) as [old|] eqn:E2.
+    + rewrite (aput_frequent_hit s k v old E1 E2) in Ex. inversion Ex; subst s' r.
+      unfold retained_a. cbn [t1 t2 b1 b2 items with_items]. apply in_app_iff in He. in_norm.
+      destruct He as [He|He]; [tauto|]. apply Hkeep in He. tauto.
+    + destruct (find k (items (b1 s))) as [old|] eqn:E3.
+      * destruct (aput_recent_ghost_hit s k v old Hinv E1 E2 E3) as (s2 & Hm & E).
+        rewrite E in Ex. inversion Ex; subst s' r. clear Ex.
+        set (s1 := mkArc (asize s) _ (t1 s) (with_items (b1 s) (remove_key k (items (b1 s)))) (t2 s) (b2 s)) in *.
+        assert (Hi1 : arc_inv s1).
+        { pose proof (cntl_find_some _ _ _ E3) as Hpos. pose proof (length_remove_key_in _ _ Hpos) as Hlen.
+          subst s1. repeat split; unfold llen in *; proj; try lia.
+          intros x. pose proof (Hd x). autorewrite with cnt. eqb_cases; lia. }
+        destruct (made_room_residents s1 (Nat.leb (asize s) (llen (t1 s) + llen (t2 s))) false s2 Hi1) with (e := e)
+          as [(Hin & _)|[(Hin & _)|[(Hin & _)|[(Hg & _)|(Hg & _)]]]]; [|exact Hm|exact He| | | | |].
+        { intros Ef. apply Nat.leb_le in Ef. subst s1. proj. lia. }
+        all: try (apply ghosted_in in Hg); try (apply in_app_iff in Hin);
+          unfold retained_a; cbn [t1 t2 b1 b2 items with_items]; rewrite !in_app_iff; cbn [In]; tauto.
+      * destruct (find k (items (b2 s))) as [old|] eqn:E4.
+        -- destruct (aput_frequent_ghost_hit s k v old Hinv E1 E2 E3 E4) as (s2 & Hm & E).
+           rewrite E in Ex. inversion Ex; subst s' r. clear Ex.
+           set (s1 := mkArc (asize s) _ (t1 s) (b1 s) (t2 s) (with_items (b2 s) (remove_key k (items (b2 s))))) in *.
+           assert (Hi1 : arc_inv s1).
+           { pose proof (cntl_find_some _ _ _ E4) as Hpos. pose proof (length_remove_key_in _ _ Hpos) as Hlen.
+             subst s1. repeat split; unfold llen in *; proj; try lia.
+             intros x. pose proof (Hd x). autorewrite with cnt. eqb_cases; lia. }
+           destruct (made_room_residents s1 (Nat.leb (asize s) (llen (t1 s) + llen (t2 s))) true s2 Hi1) with (e := e)
+             as [(Hin & _)|[(Hin & _)|[(Hin & _)|[(Hg & _)|(Hg & _)]]]]; [|exact Hm|exact He| | | | |].
+           { intros Ef. apply Nat.leb_le in Ef. subst s1. proj. lia. }
+           all: try (apply ghosted_in in Hg); try (apply in_app_iff in Hin);
+             unfold retained_a; cbn [t1 t2 b1 b2 items with_items]; rewrite !in_app_iff; cbn [In]; tauto.
+        -- destruct (aput_new_key s k v Hinv E1 E2 E3 E4) as (s1 & Hm & E).
+           rewrite E in Ex. inversion Ex; subst s' r. clear Ex.
+           destruct (made_room_residents s (Nat.leb (asize s) (llen (t1 s) + llen (t2 s))) false s1 Hinv) with (e := e)
+             as [(Hin & _)|[(Hin & _)|[(Hin & _)|[(Hg & Eb2)|(Hg & Eb1)]]]]; [|exact Hm|exact He| | | | |].
+           { intros Ef. apply Nat.leb_le in Ef. lia. }
+           1-3: apply in_app_iff in Hin; unfold retained_a; cbn [t1 t2 b1 b2 items with_items];
+             rewrite !in_app_iff; cbn [In]; tauto.
+           ++ unfold retained_a. cbn [t1 t2 b1 b2]. in_norm. right. left.
+              destruct (Nat.ltb_spec (asize s - ap s) (llen (b1 s))) as [Hc|Hc]; cbn [items with_items].
+              ** eapply ghosted_survives_trim; [exact Hg|exact H2|unfold llen in Hc; lia].
+              ** eapply ghosted_in; exact Hg.
+           ++ unfold retained_a. cbn [t1 t2 b1 b2]. in_norm. right. right. right.
+              destruct (Nat.ltb_spec (ap s) (llen (b2 s))) as [Hc|Hc]; cbn [items with_items].
+              ** eapply ghosted_survives_trim; [exact Hg|exact H2|unfold llen in Hc; lia].
+              ** eapply ghosted_in; exact Hg.
+Qed.
